@@ -152,6 +152,50 @@ package stree
 //@   at after "cur.right = L": ghost L.cnt = cc
 //@   at after "cur.right = L": ghost L.rep = cr
 //@
+// rotateLeft: count left rotations along the chain hanging off n (the sentinel of vineToTree): the nodes at odd
+// positions of the chain move up, those at even positions become their left children. sp is the chain before
+// (m nodes, 2*count <= m), sq the chain after (m - count nodes): sq[k] = sp[2k+1] for k < count, sp[k+count] beyond.
+//@ func rotateLeft
+//@   ghost cmp func(T, T) int, sp imap[*node[T]], m int
+//@   ghostret sq imap[*node[T]]
+//@   requires [C01] args: n != nil && n.left == nil && count >= 0 && 2 * count <= m
+//@   requires [C01] tree: treeOK(n.right, cmp) && !inD(n.right, n)
+//@   requires [C01] chain: chainOK(n.right, sp, m)
+//@   ensures  [C01] shape: treeOK(n.right, cmp) && cntOf(n.right) == old(cntOf(n.right)) && ((n.right == nil) == old(n.right == nil)) && n.left == nil && !inD(n.right, n)
+//@   ensures  [C01] keys: forall k int :: {inK(n.right, k)} inK(n.right, k) <==> old(inK(n.right, k))
+//@   ensures  [C01] desc: forall y ref :: {inD(n.right, y)} inD(n.right, y) <==> old(inD(n.right, y))
+//@   ensures  [C01] reps: forall k int :: {n.right.rep[k]} inK(n.right, k) ==> n.right.rep[k] == old(n.right.rep[k])
+//@   ensures  [C01] chain: chainOK(n.right, sq, m - count)
+//@   ensures  [C01] values: forall y *node[T] :: {y.X} old(allocated(y)) ==> y.X == old(y.X)
+//@   ensures  [C01] frame: forall y *node[T] :: {y.left} {y.right} {y.X} {y.keys} {y.desc} {y.cnt} {y.rep} old(allocated(y)) && !old(inD(n.right, y)) && y != n ==> sameNode(y)
+//@   modifies every(n.left), every(n.right), every(n.keys), every(n.desc), every(n.cnt), every(n.rep)
+//@   at entry: ghost D0 = ite(n.right == nil, emptyset(n.desc), n.right.desc)
+//@   at entry: ghost K0 = ite(n.right == nil, emptyset(n.keys), n.right.keys)
+//@   loop 1: invariant [C01] pos: 0 <= it1 && it1 <= count && (it1 == 0 ==> next == n) && (it1 > 0 ==> next == sp[2 * it1 - 1]) && next != nil && (2 * it1 < m ==> next.right == sp[2 * it1]) && (2 * it1 == m ==> next.right == nil)
+//@   loop 1: invariant [C01] stub: n != nil && n.left == nil && !(n in D0) && (next == n || next in D0) && old(allocated(n))
+//@   loop 1: invariant [C01] tree: treeOK(n.right, cmp) && cntOf(n.right) == old(cntOf(n.right)) && ((n.right == nil) == old(n.right == nil))
+//@   loop 1: invariant [C01] sets: (forall y ref :: {inD(n.right, y)} {y in D0} inD(n.right, y) <==> y in D0) && (forall k int :: {inK(n.right, k)} {k in K0} inK(n.right, k) <==> k in K0) && (forall k int :: {n.right.rep[k]} k in K0 ==> n.right.rep[k] == old(n.right.rep[k]))
+//@   loop 1: invariant [C01] rest: (forall k int :: {sp[k]} 2 * it1 <= k && k < m ==> sp[k] != nil && sp[k] in D0 && inD(next.right, sp[k]) && sp[k].cnt == old(sp[k].cnt)) && (forall a int, b int :: {sp[a], sp[b]} 2 * it1 <= a && b == a + 1 && b < m ==> sp[a].right == sp[b]) && (m > 0 && 2 * it1 < m ==> sp[m - 1].right == nil)
+//@   loop 1: invariant [C01] moved: (forall j int :: {sp[2 * j + 1]} 0 <= j && j < it1 ==> sp[2 * j + 1] != nil && sp[2 * j + 1] in D0 && !inD(next.right, sp[2 * j + 1]) && sp[2 * j + 1].cnt == old(sp[2 * j].cnt)) && (forall j int :: {sp[2 * j + 1]} 0 <= j && j + 1 < it1 ==> sp[2 * j + 1].right == sp[2 * j + 3]) && (it1 > 0 ==> n.right == sp[1]) && (it1 == 0 && m > 0 ==> n.right == sp[0])
+//@   loop 1: invariant [C01] sealed: forall y *node[T] :: {y in D0} (y in D0 || y == n) && !inD(next.right, y) && y != next ==> !inD(next.right, y.left) && !inD(next.right, y.right)
+//@   loop 1: invariant [C01] values: forall y *node[T] :: {y.X} old(allocated(y)) ==> y.X == old(y.X)
+//@   loop 1: invariant [C01] frame: forall y *node[T] :: {y.left} {y.right} {y.X} {y.keys} {y.desc} {y.cnt} {y.rep} old(allocated(y)) && !(y in D0) && y != n ==> sameNode(y)
+//@   at after "R := C.right": assert [C01] C == sp[2 * it1] && R == sp[2 * it1 + 1] && C in D0 && R in D0 && R != C && C != next && R != next && R in C.desc && !(C in R.desc) && !inD(C.left, R) && !inD(C.left, C)
+//@   at after "R := C.right": assert [C01] forall y *node[T] :: {y in D0} (y in D0 || y == n) && (y.left == C || y.right == C) ==> y == next
+//@   at after "R := C.right": assert [C01] forall y *node[T] :: {y in D0} (y in D0 || y == n) && (y.left == R || y.right == R) ==> y == C
+//@   at after "R := C.right": ghost ck = C.keys
+//@   at after "R := C.right": ghost cd = C.desc
+//@   at after "R := C.right": ghost cc = C.cnt
+//@   at after "R := C.right": ghost cr = C.rep
+//@   at after "next.right = R": ghost C.keys = lambda k int :: k == rank(cmp, C.X) || inK(C.left, k) || inK(C.right, k)
+//@   at after "next.right = R": ghost C.desc = lambda w int :: w == C || inD(C.left, w) || inD(C.right, w)
+//@   at after "next.right = R": ghost C.cnt = 1 + cntOf(C.left) + cntOf(C.right)
+//@   at after "next.right = R": ghost R.keys = ck
+//@   at after "next.right = R": ghost R.desc = cd
+//@   at after "next.right = R": ghost R.cnt = cc
+//@   at after "next.right = R": ghost R.rep = cr
+//@   at exit: ghost sq = lambda k int :: ite(k < count, sp[2 * k + 1], sp[k + count])
+//@
 // rewrite (treeToVine + vineToTree) rebuilds a subtree in place: same nodes, same keys, again a search tree. Its
 // contract is assumed here and checked by a bounded stand-in (the rotations need an in-order sequence argument).
 //@ func rewrite
